@@ -55,7 +55,7 @@ PROPS = {
         shards={"quick": 8, "thorough": 16},
     ),
     "C10": dict(
-        pkg="pb", test="TestVerifC10", model="C10", level="proof", stateless=True, diff_is_failure=True,
+        pkg="pb", test="TestVerifC10", model="C10", level="proof", stateless=True, diff_is_failure=True, also=["C01"],
         nontrivial_line=lambda l: (":0" in l) or ("rec=-" in l) or ("type=99" in l),
         rule="every line is one ProtocolMessenger call answered with a generated response: the full table of "
              "method x response type x record shape (absent / key mismatch / value mismatch) and random peer "
@@ -89,7 +89,7 @@ PROPS = {
         shards={"quick": 8, "thorough": 16},
     ),
     "C02": dict(
-        pkg=".", test="TestVerifC02", model="C01", verdict="C02v", level="proof",
+        pkg=".", test="TestVerifC02", model="C01", verdict="C02v", level="proof", also=["C01"],
         rule="a case is an honest network of 1-60 peers (thorough up to 400) whose knowledge is derived from the peers' "
              "real SHA-256 identifiers: k-bucket complete (all of every non-full bucket, K random members of every full "
              "one) or full knowledge; random seed routing table, (K, alpha, beta), four arrival-order policies, run to "
